@@ -125,6 +125,31 @@ def run(ctx, rep):
             rep.violation('C09:fold', '%s = %s but nested = %s' % (c.show(), a, bb), dict(c.data(), kind='fold'))
         rep.distinct.add(c.request())
 
+    # exactness through the n-ary fold (C09_merge_exact_n_ok): name-aligned role-consistent triples
+    al3 = ask(['aligned ' + tok_sigs(c.ds) for c, m, i in flat])
+    trip = [(c, m, i) for (c, m, i), a in zip(flat, al3) if a == 'T']
+    rep.coverage['aligned_role_consistent_triples'] = len(trip)
+    reqs, meta = [], []
+    for c, m, i in trip:
+        if i[0] == 'ok':
+            reqs.append('exact %s %s' % (tok_sig(i[1]), tok_sigs(c.ds)))
+            meta.append((c, i, 'exact'))
+        elif i[1] == 'Incompatible':
+            reqs.append('none ' + tok_sigs(c.ds))
+            meta.append((c, i, 'none'))
+    for (c, i, kind), ans in zip(meta, ask(reqs)):
+        cex = parse_cex(ans)
+        if cex is None:
+            continue
+        if kind == 'exact':
+            rep.violation('C09:exact', '%s = %s differs from the intersection of its inputs on the non-colliding call %s'
+                          % (c.show(), show_sig(i[1]), show_call(cex)), dict(c.data(), kind='exact3'))
+        else:
+            # known finding (delimited class): with three or more inputs an earlier step can make a
+            # parameter positional-only, and a later input then cannot be merged although a common call exists
+            rep.violation('C09:nary-raise-order', '%s raised IncompatibleSignatures although all inputs accept call %s'
+                          % (c.show(), show_call(cex)), dict(c.data(), kind='exact3'))
+
     # unary laws
     star = [mk_param(id_of_name('args'), 'VP'), mk_param(id_of_name('kwargs'), 'VK')]
     nun = 0
@@ -156,6 +181,15 @@ def replay(ctx, data):
     if r['kind'] == 'exact':
         res, _ = decide_exact(run_cases([c]))
         return res[0][2] if res else None
+    if r['kind'] == 'exact3':
+        i = c.impl()
+        if i[0] == 'ok':
+            cex = parse_cex(ask(['exact %s %s' % (tok_sig(i[1]), tok_sigs(c.ds))])[0])
+            return None if cex is None else 'differs from the intersection on call %s' % show_call(cex)
+        if i[1] == 'Incompatible':
+            cex = parse_cex(ask(['none ' + tok_sigs(c.ds)])[0])
+            return None if cex is None else 'raised IncompatibleSignatures although all inputs accept call %s' % show_call(cex)
+        return None
     if r['kind'] == 'fold':
         a = proj_full(c.impl())
         bb = proj_full(MergeNested(c.ds).impl())
@@ -170,3 +204,13 @@ def replay(ctx, data):
             ok = proj_params(i) == ('ok', tuple(d['params']), None, ('E',))
         return None if ok else '%s fails: got %s' % (r['label'], i)
     return None
+
+
+def replay_known(ctx, k):
+    if k.get('key') != 'C09:nary-raise-order':
+        return True
+    c = case_from_data(k['witness'])
+    i = c.impl()
+    if i[0] == 'err' and i[1] == 'Incompatible':
+        return parse_cex(ask(['none ' + tok_sigs(c.ds)])[0]) is not None
+    return False
